@@ -96,7 +96,7 @@ func cmdAdmit(args []string) {
 		}
 	}
 	// the node's only neighbour is rejected / goes away: nothing of it may stay behind
-	for variant := 0; variant < 2; variant++ {
+	for variant := 0; variant < 3; variant++ {
 		hooks, viol, inconcl := runAdmitLastPeerScenario(col, variant)
 		for _, v := range viol {
 			res.violate(v.Sig, v.What, v.Replay)
